@@ -222,6 +222,17 @@ prop('C17', src='props/c17_bound.cpp',
      technique='exhaustive enumeration of word lengths (sound bound over all word vectors) + property-based witness search over extremal seeds (rapidcheck) under ASan',
      level_text='The bound is decided by enumeration of all 20480 words (a sound upper bound for every word vector) and confirmed by encoding/decoding extremal witness seeds under ASan. Exploration with an exhaustive bound computation.')
 
+WIPE_VARIANTS = [f'wipe-{cc}-{o}' for cc in ('gcc', 'clang') for o in ('O0', 'O1', 'O2', 'O3', 'Os')]
+prop('C16', src='props/c16_wipe.cpp',
+     plan={'quick': [{'variant': v, 'workers': 1, 'scale': 1.0} for v in WIPE_VARIANTS], 'thorough': [{'variant': v, 'workers': 1} for v in WIPE_VARIANTS]},
+     rule='rapidcheck: (full-entropy 19-byte secret, birthday, user features, language, coin, password with a 12-letter random tail, 32-byte mask, scenario) x ten plain builds (gcc and clang at -O0 -O1 -O2 -O3 -Os, linked -z now). Each API call - create, encode, decode and decode_explicit (success with composed and decomposed input, plus one of: word-count error, language error, checksum error, wrong coin, allocation failure, unsupported features), store, load (success plus one of checksum/format/format/allocation failure, and unsupported), keygen, getters, crypt, free - runs on a dedicated 256 KiB stack pre-filled with 0xA5; '
+          'afterwards the dead stack is searched for any 8 consecutive bytes of the secret (old and new), the random bytes, the mask, the password (raw and NFKD), any 12 consecutive bytes of the phrase (NFC and NFKD), and any 4 consecutive word indices / polynomial coefficients as 16-, 32- or 64-bit arrays. The injected wipe function fills 0xEE ("mark" mode): the block handed to the injected free must be entirely 0xEE and the wipe call immediately before the free must cover it. '
+          'Every case is non-trivial (all calls handle secret items); distinct = fingerprint of the case.',
+     required_classes={'any': ['call:create', 'call:encode', 'call:crypt', 'call:free', 'exit:decode/OK', 'exit:decode/NUM_WORDS', 'exit:decode/LANG', 'exit:decode/CHECKSUM', 'exit:decode/MEMORY', 'exit:decode/UNSUPPORTED', 'exit:decode_explicit/OK', 'exit:decode_explicit/LANG', 'exit:load/OK', 'exit:load/CHECKSUM', 'exit:load/FORMAT', 'exit:load/MEMORY', 'exit:load/UNSUPPORTED']},
+     assumptions=['memory inspection only: registers, caches and kernel copies are out of reach; compiler coverage is the ten listed builds', 'thresholds are 8 bytes / 12 phrase bytes / 4 indices: single spilled scalars are not demanded to be absent'],
+     technique='property-based testing (rapidcheck) with a dead-stack residue scan on a dedicated context stack and inspection of the freed block, across ten compiler/optimisation builds',
+     level_text='For every generated case each API function and exit path is executed on a patterned stack which is then searched for secret-derived byte patterns; the freed block is inspected at release time with a marking wipe function. Exploration over inputs and ten compiler configurations.')
+
 NOT_APPLICABLE = {}
 MANIFEST_NOTES = 'All checks: ./check run <ID> --tier quick|thorough; VERIF_SEED selects the generator seed; evidence in /verif/evidence/<ID>.json; replay files under /verif/replays/<ID>/; committed regression cases under /verif/regress/<ID>/. See DESIGN.md.'
 for _p in ['C%02d' % i for i in range(1, 21)]:
